@@ -619,7 +619,13 @@ func c16CircuitChild(c *Ctx, w *bufio.Writer, r *RNG, startAt int, sp c16Spec) e
 				e2gPrefixIntact = false
 			}
 			dl := res.e2gDelivered
-			if !e2gPrefixIntact || res.stalled || len(dl) < le || len(res.g2eDelivered) < 36 {
+			// alignment: the returned labels are located by the HONEST transcript's length.  The
+			// evaluator's stream has variable-length fields (big integers of the OT without leading
+			// zero bytes; RSA key generation is not even repeatable for one seed), so a corrupted
+			// g2e stream, or another session of an RSA child, can make it a byte longer or shorter:
+			// then the labels are not where the model input would take them from — oracle only
+			aligned := len(res.e2g) == le && (f.dir == "e2g" || len(dl) == le)
+			if !e2gPrefixIntact || res.stalled || len(dl) < le || len(res.g2eDelivered) < 36 || !aligned {
 				emit()
 				continue
 			}
